@@ -31,7 +31,7 @@ type FuncResult struct {
 
 func (e *Engine) verifyFunc(fn *ssa.Function, c *Contract) (fres *FuncResult) {
 	x := newVC(e, fn, c)
-	fres = &FuncResult{Key: fnKeyShort(fn), Contract: c, VC: x, Mode: x.mode, IsLemma: c != nil && c.Lemma}
+	fres = &FuncResult{Key: fnKeyShort(fn), Contract: c, VC: x, Mode: modeName(x), IsLemma: c != nil && c.Lemma}
 	for _, b := range fn.Blocks {
 		fres.NumInstrs += len(b.Instrs)
 	}
@@ -107,6 +107,10 @@ func (e *Engine) verifyFunc(fn *ssa.Function, c *Contract) (fres *FuncResult) {
 				x.modelVals = append(x.modelVals, v.Len)
 				x.modelLbl[v.Len] = ri.Name
 			}
+		}
+		for _, rb := range c.ReplayBd {
+			v := x.evalSpec(rb, env)
+			x.replayBounds = append(x.replayBounds, v.T)
 		}
 		// vacuity: the precondition must be satisfiable
 		o := x.addObl("cover:requires-satisfiable", "", "", "true", "true")
@@ -246,4 +250,14 @@ func (x *VC) altFromSpec(e *SExpr, env *SEnv, depth int) {
 			}
 		}
 	}
+}
+
+func modeName(x *VC) string {
+	if x.wrap {
+		return "wrap (Int with exact modular arithmetic)"
+	}
+	if x.mode == "math" && x.noOvf {
+		return "math (overflow assumed away)"
+	}
+	return x.mode
 }
